@@ -113,6 +113,10 @@ type Net struct {
 	Interpose func(f *Frame) []*Frame
 	// OnSend observers (called with the lock held, after Interpose).
 	OnSend func(f *Frame)
+	// PreSend, when set, is called inside the library's Send call for every destination, before the frame is handed to
+	// the network and WITHOUT any harness lock held: the place for faults that happen "inside Send" (cancel the
+	// sender's context, yield the processor).
+	PreSend func(from, to uint16, msgType uint8)
 }
 
 func NewNet() *Net {
@@ -125,6 +129,9 @@ func (n *Net) Attach(id uint16, h Handler) { n.mu.Lock(); n.handlers[id] = h; n.
 func (n *Net) SendFunc(from uint16) func(msgType uint8, topic []byte, msg []byte, to ...uint16) {
 	return func(msgType uint8, topic []byte, msg []byte, to ...uint16) {
 		for _, dst := range to {
+			if n.PreSend != nil {
+				n.PreSend(from, dst, msgType)
+			}
 			n.Enqueue(&Frame{From: from, To: dst, MsgType: msgType, Topic: clone(topic), Data: clone(msg),
 				liveData: msg, liveTopic: topic, snapData: clone(msg), snapTopic: clone(topic)})
 		}
